@@ -1,5 +1,6 @@
 //! nimc - bounded-exhaustive model checking harness for ndarray-interp (see /verif/DESIGN.md)
 pub mod alpha;
+pub mod dd;
 pub mod driver;
 pub mod fl;
 pub mod json;
@@ -8,5 +9,5 @@ pub mod refm;
 pub mod spl;
 pub mod subj;
 
-pub use driver::{catch, finish, main_with, run_jobs, Ctx, JobOut, Meta, Summary, Tier};
+pub use driver::{catch, finish, main_with, run_jobs, try_exact, Ctx, JobOut, Meta, Summary, Tier};
 pub use json::Json;
